@@ -8,14 +8,17 @@
      k_outs   outcome of the n-th invocation of the objective (Ok costs / Transient / Fatal kind)
      k_cons   the constraint function as a table vector -> values (keys compared bit for bit)
      k_tape   the vectors returned by VectorAndNumbers.gen_vector inside Job.evaluate, in order
-   np.round(y, decimals=p) is modelled bit-exactly: rint(y * 10^p) / 10^p (rint(y) for p = 0) with rint by
-   the 2^52 trick; 10^p is exact in binary64 for p <= 22. *)
+   np.round(y, decimals=p) of a FLOAT is modelled bit-exactly: rint(y * 10^p) / 10^p (rint(y) for p = 0) with rint by
+   the 2^52 trick; 10^p is exact in binary64 for p <= 22.  A number the implementation holds as an INTEGER object
+   (a Python int returned by the objective, numpy integers derived from it) takes numpy's integer path:
+   np.round(n, decimals = p >= 0) = n and sign * n is the exact integer product (no negative zero).  Numbers are
+   therefore `num` = binary64 value + "is an integer object" (`F x` / `I x` in the generated cases; |n| < 2^53 so the
+   value is exact); the tag steers `nroundp` / `nsmul` and is not part of the comparison (values bit for bit). *)
 From Coq Require Import List ZArith Bool Floats.
 From Artap Require Export Base.Ord Base.FloatInst Model.Job.
 Import ListNotations.
 Local Open Scope float_scope.
 
-Definition fvec := list float.
 
 (* round half to even to an integer (C rint in the default rounding mode); keeps the sign of zero *)
 Definition frint (x : float) : float :=
@@ -32,28 +35,42 @@ Definition fround7 (y : float) : float := froundp 7 y.
 (* Python int sign (1 / -1) times np.float64 *)
 Definition fsmul (maximise : bool) (x : float) : float := (if maximise then -1 else 1) * x.
 
+(* numbers as the implementation holds them *)
+Record num := mkn { nv : float; nint : bool }.
+Definition F (x : float) : num := mkn x false.
+Definition I (x : float) : num := mkn x true.
+Definition nltb (a b : num) : bool := fltb (nv a) (nv b).
+Definition nzero : num := F 0.
+(* np.round: identity on integer objects (decimals >= 0), the float path otherwise *)
+Definition nroundp (p : nat) (y : num) : num := if nint y then y else F (froundp p (nv y)).
+(* sign * value: float product; for an integer object the integer product, whose zero has no sign *)
+Definition nsmul (maximise : bool) (y : num) : num :=
+  if nint y then (let r := fsmul maximise (nv y) in I (if (r =? 0) then 0 else r)) else F (fsmul maximise (nv y)).
+Definition nbits_eqb (a b : num) : bool := fbits_eqb (nv a) (nv b).
+Definition fvec := list num.
+
 Inductive op :=
-| OpMk (i : ind float)
+| OpMk (i : ind num)
 | OpEval (ids : list nat)
 | OpScalar (x : fvec)
 | OpSweep (vs : list fvec).
 
-Inductive opres := RUnit | RRes (r : result) | RScal (s : scalar_ret float).
+Inductive opres := RUnit | RRes (r : result) | RScal (s : scalar_ret num).
 
 Record job_case := {
   k_signs : list bool;
-  k_outs : list (outcome float);
+  k_outs : list (outcome num);
   k_cons : list (fvec * fvec);
   k_tape : list fvec;
   k_ops : list op }.
 
 (* literal helper for the generated files *)
-Definition mk (v c : fvec) (s : option (fvec * bool)) (st : dstate) (f : bool) (p : nat) : ind float :=
+Definition mk (v c : fvec) (s : option (fvec * bool)) (st : dstate) (f : bool) (p : nat) : ind num :=
   {| ivec := v; icosts := c; isigned := s; istate := st; ifeas := f; iprec := p |}.
 
 (* the job of one design in isolation (used for interleaved runs: 2-worker parallel, nested evaluation);
    its global call numbers are its attempt numbers *)
-Definition par_design_case (signs : list bool) (v : fvec) (prec : nat) (outs : list (outcome float))
+Definition par_design_case (signs : list bool) (v : fvec) (prec : nat) (outs : list (outcome num))
            (cons : list (fvec * fvec)) (tape : list fvec) : job_case :=
   {| k_signs := signs; k_outs := outs; k_cons := cons; k_tape := tape;
      k_ops := [OpMk (mk v [] None Empty false prec); OpEval [0%nat]] |}.
@@ -64,31 +81,31 @@ Fixpoint list_eqb {A : Type} (eqb : A -> A -> bool) (a b : list A) : bool :=
   | x :: a', y :: b' => eqb x y && list_eqb eqb a' b'
   | _, _ => false
   end.
-Definition fvec_eqb : fvec -> fvec -> bool := list_eqb fbits_eqb.
+Definition fvec_eqb : fvec -> fvec -> bool := list_eqb nbits_eqb.
 
-Definition is_transient (o : outcome float) : bool := match o with Transient => true | _ => false end.
-Definition count_transient (l : list (outcome float)) : nat := length (filter is_transient l).
+Definition is_transient (o : outcome num) : bool := match o with Transient => true | _ => false end.
+Definition count_transient (l : list (outcome num)) : nat := length (filter is_transient l).
 
 Definition cons_lookup (tbl : list (fvec * fvec)) (v : fvec) : option fvec :=
   match find (fun p => fvec_eqb (fst p) v) tbl with Some p => Some (snd p) | None => None end.
 
-Definition env_of (c : job_case) : env float :=
+Definition env_of (c : job_case) : env num :=
   {| e_signs := k_signs c;
      e_obj := fun cl => nth (c_no cl) (k_outs c) (Fatal 999);
-     e_cons := fun v => match cons_lookup (k_cons c) v with Some g => g | None => [nan] end;
-     e_reroll := fun cl => nth (count_transient (firstn (c_no cl) (k_outs c))) (k_tape c) [nan] |}.
+     e_cons := fun v => match cons_lookup (k_cons c) v with Some g => g | None => [F nan] end;
+     e_reroll := fun cl => nth (count_transient (firstn (c_no cl) (k_outs c))) (k_tape c) [F nan] |}.
 
-Definition jstate := state float.
+Definition jstate := state num.
 
-Definition run_op (e : env float) (st : jstate) (o : op) : jstate * opres :=
+Definition run_op (e : env num) (st : jstate) (o : op) : jstate * opres :=
   match o with
   | OpMk i => (alloc st i, RUnit)
-  | OpEval ids => let '(st', r) := evaluate_serial fltb 0 froundp fsmul e st ids in (st', RRes r)
-  | OpScalar x => let '(st', s) := evaluate_scalar fltb 0 froundp fsmul e st x in (st', RScal s)
-  | OpSweep vs => let '(st', r) := sweep fltb 0 froundp fsmul e st vs in (st', RRes r)
+  | OpEval ids => let '(st', r) := evaluate_serial nltb nzero nroundp nsmul e st ids in (st', RRes r)
+  | OpScalar x => let '(st', s) := evaluate_scalar nltb nzero nroundp nsmul e st x in (st', RScal s)
+  | OpSweep vs => let '(st', r) := sweep nltb nzero nroundp nsmul e st vs in (st', RRes r)
   end.
 
-Fixpoint run_ops (e : env float) (st : jstate) (ops : list op) : jstate * list opres :=
+Fixpoint run_ops (e : env num) (st : jstate) (ops : list op) : jstate * list opres :=
   match ops with
   | [] => (st, [])
   | o :: rest => let '(st1, r) := run_op e st o in
@@ -99,7 +116,7 @@ Fixpoint run_ops (e : env float) (st : jstate) (ops : list op) : jstate * list o
    objective call log (design, vector), tapes consistent (every scripted outcome and every
    re-rolled vector consumed, every constraint lookup answered) *)
 Definition job_obs : Type :=
-  list opres * list (ind float) * list nat * list (ind float) * list (nat * ind float) * list (nat * fvec) * bool.
+  list opres * list (ind num) * list nat * list (ind num) * list (nat * ind num) * list (nat * fvec) * bool.
 
 Definition job_run (c : job_case) : job_obs :=
   let '(st, rs) := run_ops (env_of c) init_state (k_ops c) in
@@ -113,7 +130,7 @@ Definition job_run (c : job_case) : job_obs :=
 Definition opt_eqb {A : Type} (eqb : A -> A -> bool) (a b : option A) : bool :=
   match a, b with Some x, Some y => eqb x y | None, None => true | _, _ => false end.
 Definition signed_eqb (a b : fvec * bool) : bool := fvec_eqb (fst a) (fst b) && Bool.eqb (snd a) (snd b).
-Definition ind_eqb (a b : ind float) : bool :=
+Definition ind_eqb (a b : ind num) : bool :=
   fvec_eqb (ivec a) (ivec b) && fvec_eqb (icosts a) (icosts b) && opt_eqb signed_eqb (isigned a) (isigned b) &&
   dstate_eqb (istate a) (istate b) && Bool.eqb (ifeas a) (ifeas b) && Nat.eqb (iprec a) (iprec b).
 Definition result_eqb (a b : result) : bool :=
@@ -122,9 +139,9 @@ Definition result_eqb (a b : result) : bool :=
   | RaisedFatal j, RaisedFatal k => Nat.eqb j k
   | _, _ => false
   end.
-Definition scalar_eqb (a b : scalar_ret float) : bool :=
+Definition scalar_eqb (a b : scalar_ret num) : bool :=
   match a, b with
-  | SVal x, SVal y => fbits_eqb x y
+  | SVal x, SVal y => nbits_eqb x y
   | SMark x, SMark y => Bool.eqb x y
   | SNone, SNone => true
   | SRaise x, SRaise y => result_eqb x y
@@ -137,7 +154,7 @@ Definition opres_eqb (a b : opres) : bool :=
   | RScal x, RScal y => scalar_eqb x y
   | _, _ => false
   end.
-Definition nind_eqb (a b : nat * ind float) : bool := Nat.eqb (fst a) (fst b) && ind_eqb (snd a) (snd b).
+Definition nind_eqb (a b : nat * ind num) : bool := Nat.eqb (fst a) (fst b) && ind_eqb (snd a) (snd b).
 Definition nvec_eqb (a b : nat * fvec) : bool := Nat.eqb (fst a) (fst b) && fvec_eqb (snd a) (snd b).
 
 Definition job_obs_eqb (a b : job_obs) : bool :=
